@@ -88,22 +88,28 @@ fn c03_piece_lengths_partition_8() {
     partition::<8>();
 }
 
-// @prop C03
-// @fn Metainfo::piece_pos
-// @bound every byte offset in 0..2^20 and every piece_length in 1..=2^16
-// @desc piece_pos maps a byte offset of the concatenated content to (offset / piece_length, offset % piece_length): the position arithmetic behind every file's start and end
-#[kani::proof]
-fn c03_piece_pos_is_div_mod() {
-    let pl: u64 = kani::any();
-    kani::assume(pl >= 1 && pl <= 1 << 16);
-    let pos: usize = kani::any();
-    kani::assume(pos < 1 << 20);
-    let m = mk_metainfo(pl, vec![[0u8; HASH_SIZE]], vec![], "t");
+fn piece_pos_for(pl: u64) {
+    let pos: usize = (kani::any::<u32>() & 0xFFF_FFFF) as usize;
+    let m = mk_metainfo(pl, vec![[0u8; HASH_SIZE]; 2], vec![], "t");
     let p = m.piece_pos(pos);
     assert!(p.file_index == pos / pl as usize, "piece index = offset / piece_length");
     assert!(p.byte_index == pos % pl as usize, "byte index = offset % piece_length");
-    kani::cover!(p.file_index > 0 && p.byte_index > 0, "offset strictly inside a later piece");
     std::mem::forget(m);
+}
+
+// @prop C03
+// @fn Metainfo::piece_pos
+// @bound every byte offset in 0..2^28 for the piece lengths 1, 3, 4, 16384, 262144 and 1000003 (division by a symbolic divisor did not finish, DESIGN 3.12); two piece hashes, so offsets in and beyond the last piece occur
+// @desc piece_pos maps a byte offset of the concatenated content to (offset / piece_length, offset % piece_length): the position arithmetic behind every file's start and end, including the end position one past the last piece
+#[kani::proof]
+fn c03_piece_pos_is_div_mod() {
+    piece_pos_for(1);
+    piece_pos_for(3);
+    piece_pos_for(4);
+    piece_pos_for(16384);
+    piece_pos_for(262144);
+    piece_pos_for(1000003);
+    kani::cover!(true, "reached");
 }
 
 // @prop C03
@@ -174,4 +180,63 @@ fn c17_accessors_safe_on_accepted_geometry() {
     let r = m.file_piece_ranges();
     assert!(r.len() == nf);
     kani::cover!(nf == 2 && n == 3, "largest geometry in bound");
+}
+
+// ---------------------------------------------------------------------------------------------
+// Skeleton documents: concrete structure (so the recursive decoder executes along one concrete
+// control path, like a test) with symbolic *data*: piece hash bytes, one decimal digit in each
+// numeric field, name/announce bytes.
+
+fn skeleton_single_file() {
+    let mut doc: Vec<u8> = Vec::with_capacity(128);
+    let url: [u8; 3] = kani::any();
+    kani::assume(url[0] < 0x80 && url[1] < 0x80 && url[2] < 0x80); // UTF-8
+    let name: u8 = kani::any();
+    kani::assume(name < 0x80);
+    let dlen: u8 = kani::any();
+    kani::assume(dlen >= b'0' && dlen <= b'9');
+    let dpl: u8 = kani::any();
+    kani::assume(dpl >= b'1' && dpl <= b'9');
+    let hash: [u8; 20] = kani::any();
+    doc.extend_from_slice(b"d8:announce3:");
+    doc.extend_from_slice(&url);
+    doc.extend_from_slice(b"4:infod6:lengthi");
+    doc.push(dlen);
+    doc.extend_from_slice(b"e4:name1:");
+    doc.push(name);
+    doc.extend_from_slice(b"12:piece lengthi");
+    doc.push(dpl);
+    doc.extend_from_slice(b"e6:pieces20:");
+    doc.extend_from_slice(&hash);
+    doc.extend_from_slice(b"ee");
+    let res = Metainfo::from_bencode(&doc);
+    match &res {
+        Ok(m) => {
+            assert!(m.announce.as_bytes().len() == 3 && m.announce.as_bytes()[0] == url[0] && m.announce.as_bytes()[2] == url[2], "tracker url as in the document");
+            assert!(m.name.as_bytes().len() == 1 && m.name.as_bytes()[0] == name, "name as in the document");
+            assert!(m.piece_length == (dpl - b'0') as u64, "piece length as in the document");
+            assert!(m.pieces.len() == 1, "one piece hash");
+            let k: usize = kani::any();
+            if k < 20 {
+                assert!(m.pieces[0][k] == hash[k], "piece hash bytes as in the document");
+            }
+            assert!(m.files.len() == 1 && m.files[0].length == (dlen - b'0') as u64, "single file with the declared length");
+            assert!(m.files[0].path.as_bytes()[0] == name, "single file is named after the torrent");
+            kani::cover!(true, "document accepted");
+        }
+        Err(_) => panic!("a well-formed single-file document must be accepted"),
+    }
+    std::mem::forget(res);
+}
+
+// @prop C17
+// @tier off
+// @fn Metainfo::from_bencode, Metainfo::parse, find_announce, find_name, find_piece_length, find_pieces, find_length, BDecoder::from_array, DeepFinder::find_first, calculate_hash
+// @bound one concrete single-file document skeleton; symbolic: 3 announce bytes, 1 name byte (ASCII), one decimal digit of length (0..9) and of piece length (1..9), all 20 piece-hash bytes
+// @outside other document shapes, multi-digit numbers, extra keys (the recursive decoder is executed along one concrete control path only; see DESIGN 3.7)
+// @desc on this document shape the parsed model equals what the dictionary says: tracker url, name, piece length, the piece hash bytes, one file with the declared length
+#[kani::proof]
+#[kani::unwind(24)]
+fn c17_single_file_skeleton_fields() {
+    skeleton_single_file();
 }
